@@ -44,6 +44,11 @@ ASSUMPTIONS = [
     "return: C16/C04) and is exercised by a stream of ill-behaved table clients on which Go must not panic and must agree "
     "with the model",
     "sort.Slice in matchingVersionsWithPrereleases modelled as Go's insertion sort (lists of at most 12 versions)",
+    "C08_candidates_exact_partial assumes that the provider answers in one consistent strict order (LocalClient: ascending "
+    "versions; intersect relies on it, as its comment says); C08_candidates_exact_client_partial states it on the client "
+    "(MatchingVersions and Versions answers strictly ascending, the comparator deciding that order); the share of recorded "
+    "tables meeting it is measured on every run (tables with two spellings of one version do not). Without it the statement "
+    "is refuted by a witness that is replayed on the Go resolver through the table client on every run",
 ]
 
 MANIFEST = dict(
@@ -57,7 +62,11 @@ MANIFEST = dict(
           "refuted at full strength by witnesses on real LocalClient answers (open known findings F-C08-1..4: "
           "hasRouteToRoot negative memo, extras requested after the pin, extras requested by abandoned versions, edges "
           "drawn from a replaced version's requirement). Reachability is proved and checked along edges that are "
-          "requirements of their source version; the prerelease mode of every edge is pinned to findMatches' rule. Model tied "
+          "requirements of their source version; the prerelease mode of every edge is pinned to findMatches' rule; the "
+          "candidates of every criterion are proved to be exactly the versions all its requirements admit in that mode, minus "
+          "the incompatibilities, for providers answering in a consistent order (refuted otherwise, witness replayed on Go); a reported requirements "
+          "conflict, and the graph-level error raised while the direct dependencies are merged, are proved to be real (no "
+          "admitted version exists); completeness of the backtracking search is not proved. Model tied "
           "to the code by differential execution on recorded client tables; all clauses also evaluated directly on Go's graphs."),
     note=("Trusted: Coq kernel (+vm_compute), gotables, extraction and driver.ml, Go harness, python generator/oracle, "
           "marker and semver functions as oracles (C16, C03). Hand-written model validated by execution, not verified "
@@ -858,9 +867,11 @@ def run_batch(ctx, unis, label):
                 ctx.count("marker_evaluations_compared_with_reference")
                 if bool(val) != bool(marker_truth(tree, set(ex))):
                     ctx.count("marker_evaluations_differing_from_reference")
-        for r, (rec, raw_differs, raw_obs, nondet, inconsistent, wf, rejected), iobs, mobs, nb in zip(
+        for r, (rec, raw_differs, raw_obs, nondet, inconsistent, wf, rejected, ordered), iobs, mobs, nb in zip(
                 roots, per, impl_obs, model_obs, nb_list):
             ctx.count("corr:roots")
+            ctx.count("tables_meeting_the_order_hypotheses_of_candidates_exact" if ordered
+                      else "tables_outside_the_order_hypotheses_of_candidates_exact")
             inp = LazyInput(names, vers, uni, r)
             if inconsistent:
                 violation("the client gave two different answers to the same call within one resolution",
@@ -985,6 +996,32 @@ def adversarial(ctx, cases, n):
                               {"kind": "pypi", "arg": case}, observed=il[:2000])
 
 
+def order_witness(ctx):
+    """The witness of C08_candidates_exact_refuted replayed on the Go resolver (through the table client): a
+    well-formed client that answers two requirements on x in opposite orders makes intersect lose x 2.0."""
+    def vk(n, t, v):
+        return [n, t, v]
+    table = [[],
+             [[vk(b"r", 1, b"1.0"), [1, [[b"a", 2, b"", []], [b"b", 2, b"", []]]]],
+              [vk(b"a", 1, b"1.0"), [1, [[b"x", 2, b">=1", []]]]],
+              [vk(b"b", 1, b"1.0"), [1, [[b"x", 2, b"<3", []]]]],
+              [vk(b"x", 1, b"1.0"), [1, []]], [vk(b"x", 1, b"2.0"), [1, []]]],
+             [[vk(b"a", 2, b""), [1, [vk(b"a", 1, b"1.0")]]], [vk(b"b", 2, b""), [1, [vk(b"b", 1, b"1.0")]]],
+              [vk(b"x", 2, b">=1"), [1, [vk(b"x", 1, b"1.0"), vk(b"x", 1, b"2.0")]]],
+              [vk(b"x", 2, b"<3"), [1, [vk(b"x", 1, b"2.0"), vk(b"x", 1, b"1.0")]]]]]
+    oracles = [[], [[b"", 1, 0], [b">=1", 1, 0], [b"<3", 1, 0]], [], []]
+    case = sx([oracles, [[vk(b"r", 1, b"1.0"), table]]])
+    impl, model = ctx.correspond("pypi", [case], label="pypi:order-witness", compare=same_obs_list)
+    obs = parse_sx(impl[0])[0]
+    if obs and obs[0] == b"ok" and [b"x", 1, b"1.0"] in obs[1] and [b"x", 1, b"2.0"] not in obs[1]:
+        ctx.count("order_witness_reproduced_on_go")
+        ctx.notes.append("C08_candidates_exact_refuted: witness replayed on the Go resolver, x 2.0 (admitted by both "
+                         "requirements) is not selected, x 1.0 is")
+    else:
+        ctx.notes.append("C08_candidates_exact_refuted: the Go resolver no longer behaves as the witness says (got %s)" % impl[0][:300])
+        ctx.count("order_witness_changed_on_go")
+
+
 def known_witnesses(ctx):
     """replay the witnesses of the open known findings on the Go code: they must still fail as recorded"""
     for k in lib.load_known("C08"):
@@ -1007,6 +1044,7 @@ def run(ctx):
     if ctx.replay:
         replay(ctx)
     known_witnesses(ctx)
+    order_witness(ctx)
     n_uni = ctx.scale(300, 20000)
     batch = []
     first_cases = None
